@@ -56,6 +56,21 @@ CLAIMED = {
  "C11": ("def-use rule that big numbers pass a normaliser before becoming Elvish values (NORM, GOFN-NORM), taint-to-sink rule for zero divisors of big-number operations (EXACT-ZERO)",
          "Structural necessary conditions for canonical form and for 'no exact result raises an exception': no *big.Int/*big.Rat is output or stored in a container un-normalised, goFn.Call normalises every builtin return value, every zero-panicking big-number operation reached by script numbers is guarded by a non-zero test or audited. Numeric correctness is not decided.",
          "trusts go/ssa; EXACT-ZERO shares the audit table of C17"),
+ "C24": ("def-use check that history keys come from bbolt's NextSequence of the same transaction (SEQ-SOURCE), encoder/decoder sibling agreement on fixed-width big-endian keys (KEY-ORDER)",
+         "Structural necessary conditions: sequence numbers come only from the bucket's counter (never set by hand, never derived from existing keys), and every key a cursor compares is an 8-byte big-endian integer produced and read by one codec pair, so byte order equals numeric order. Search and score semantics are not decided.",
+         "trusts go/ssa and bbolt's sequence counter"),
+ "C25": ("who-may rule for bbolt mutations (TX-ONLY), constant evaluation of bolt.Options (SYNC-ON), def-use check that transaction errors are returned (ACK-AFTER-COMMIT)",
+         "Structural argument that durability is delegated to bbolt correctly: mutations only inside DB.Update (or initDB, run inside Update), fsync never disabled for the persistent store and a positive lock timeout, every operation returns its transaction's error. bbolt's own crash behaviour is trusted, not decided.",
+         "trusts go/ssa and bbolt; audited: the temporary test store opens with NoSync"),
+ "C26": ("path check that each store operation runs at most one transaction (ONE-TX), field-write and call-count check on RPC handlers (STATELESS-SERVICE)",
+         "Structural argument for linearizability: each operation is exactly one bbolt transaction (bbolt serialises them) and the RPC service adds no state or multi-step handlers. Client reconnect logic, transport and real interleavings are not decided.",
+         "trusts go/ssa and bbolt's transaction isolation"),
+ "C27": ("dominance of the socket removal by the success edge of Listen (REMOVE-OWN), guard check on every exit of the serve loop (SERVE-WHILE-CLIENTS)",
+         "Two structural clauses: the daemon removes only a socket it successfully listened on, and leaves its serve loop only on a signal or when no client is connected, with the connection set touched only by the loop. The cross-process activation races are explicitly not decided.",
+         "trusts go/ssa"),
+ "C31": ("constant/provenance evaluation of every read timeout in the terminal reader (TIMEOUT-ALL)",
+         "Structural necessary condition for 'never blocks past its timeout': every read after the first byte of an event carries a timeout that is a positive package constant or the caller's own; blocking reads are first on every path and outside loops. Decoding correctness is not decided.",
+         "trusts go/ssa; unix reader only (reader_unix.go)"),
  "C40": ("ownership pairing for opened descriptors (OPEN-OWNED), must-call rule for returned cleanup functions on all success paths (CLEANUP-CALLED), close-before-overwrite dominance (REPLACE-CLOSES), spawn/join pairing (JOINED)",
          "Structural necessary conditions: every descriptor the evaluator opens is closed in place or recorded as owned by a form whose epilogue closes it; every cleanup function of a capture/pipe/file port is called or handed on on every path; a redirection closes the port it replaces; every goroutine is joined. Descriptor counts and the os.Pipe-failure path are not decided.",
          "trusts go/ssa; audited: process-lifetime /dev/null handle and black-hole drain"),
